@@ -35,7 +35,7 @@ _me = sys.modules[__name__]
 
 
 def shards(tier, seed):
-    return rtdriver.shards(tier, seed)
+    return rtdriver.shards(tier, seed, thorough_grids=24000)
 
 
 def run_shard(spec, ctx):
